@@ -37,7 +37,7 @@ impl Prop for C19 {
     "C19"
   }
   fn rule(&self) -> &'static str {
-    "case = random corpus (6..40 docs, 1..3 segments) + initial query (exact fast-field scores / constant / BM25) + rescore {window_size 0..limit+5 (sometimes 50), score_mode in total/multiply/sum/max/min, rescore query = function_score over a second fast field with optional min_score / filtered weight / BM25 term} + limit 1..10, optional candidate_size, sort (70% default), execution, explain; non-trivial = window_size > 0, at least 2 matches, and the rescore query changes or rejects at least one document of the window; distinct = distinct case JSON"
+    "case = random corpus (6..40 docs, 1..3 segments) + initial query (exact fast-field scores / constant / BM25) + rescore {window_size 0..limit+5 (sometimes 50), score_mode in total/multiply/sum/max/min, rescore query = function_score over a second fast field with optional min_score / filtered weight / BM25 term / dis_max, bool and query strings that use one term in two scoring clauses} + limit 1..10, optional candidate_size, sort (70% default), execution, explain; non-trivial = window_size > 0, at least 2 matches, and the rescore query changes or rejects at least one document of the window; distinct = distinct case JSON"
   }
   fn count(&self, tier: Tier) -> usize {
     tier.pick(300, 10000)
@@ -173,7 +173,18 @@ impl Prop for C19 {
       let surv = (wn - rejected).min(got.len()).min(want_page.len());
       let is_prefix = got.len() <= want_page.len() && page_eq(&got[..surv], &want_page[..surv]);
       let legacy_top_k = req["candidate_size"].as_u64().unwrap_or(0).max(limit as u64) as usize + 1;
-      if deep_ok && rejected > 0 && is_prefix {
+      // a rescored window hit whose score is not `original (+) the rescore query's own score`
+      let score_bad = got.iter().any(|(id, sc)| match rank0.get(id) {
+        Some(r) if *r < wn => match out_of(id) {
+          RescOut::Val(v) => !close32(*sc, combine(&mode, initial.hits[*r].score, v)),
+          _ => false,
+        },
+        _ => false,
+      });
+      if score_bad && shared_scoring_term(&req["rescore"]["query"]) {
+        // repaired by /repo d465454 (status fixed: reported as a violation again)
+        s.fail("rescore.shared-term-first-leaf-only", "the rescore query uses one term in two scoring clauses; rescore_hits scored it under the first leaf only, so the rescored score is not original (+) the rescore query's own score for that document", case, obs);
+      } else if deep_ok && rejected > 0 && is_prefix {
         s.fail("rescore.page-short-after-drops", "min_score removals are not refilled from beyond the fetched max(limit,candidate_size,window_size)+1 hits: page shorter than limit, completed with hits from one segment's surplus, or next_cursor missing although more matches exist", case, obs);
       } else if deep_ok && w > legacy_top_k && initial.hits.len() > legacy_top_k {
         // repaired by /repo 089be57 (status fixed in known_findings.json: reported as a violation again)
